@@ -324,7 +324,12 @@ def run_shard(ctx):
         big = {"steps": [{"events": evs, "batch": 1000},
                          {"events": evs, "batch": 1000},
                          {"events": evs[:600] + extra + evs[600:],
-                          "batch": 2000}]}
+                          "batch": 2000},
+                         # more than 500 new spans in front of known ones
+                         {"events": [[f"N{k}", None if k % 5 == 0 else
+                                      f"N{k - 1}", "B", f"n{k // 5}", "wf",
+                                      k, k + 2, "app"] for k in range(620)]
+                          + evs[:300], "batch": 1000}]}
         ctx.record({"steps": "large history, see checks/c10.py"}, True,
                    ["large_batch_over_999_ids", "stateful"])
         try:
